@@ -377,8 +377,17 @@ def evaluate(x, model):
 # numeric replay through the public API (plain numpy; no vf arithmetic)
 
 
+def numeric_series(sizes, E, terms, hermitian=True, fd=None, callback=False):
+    """The three BlockSeries returned by the real block_diagonalize for float/complex numpy inputs."""
+    return _numeric(sizes, E, terms, hermitian, fd, 0, callback, series_only=True)
+
+
 def numeric_run(sizes, E, terms, hermitian=True, fd=None, max_order=2, callback=False):
     """Run the real block_diagonalize with float/complex numpy inputs; returns dense dicts of ndarray."""
+    return _numeric(sizes, E, terms, hermitian, fd, max_order, callback)
+
+
+def _numeric(sizes, E, terms, hermitian, fd, max_order, callback, series_only=False):
     from pymablock import block_diagonalize
     from pymablock.series import BlockSeries, one, zero
 
@@ -418,6 +427,8 @@ def numeric_run(sizes, E, terms, hermitian=True, fd=None, max_order=2, callback=
 
         kw["solve_sylvester"] = solve_sylvester
     Ht, U, Ui = block_diagonalize(H, hermitian=hermitian, **kw)
+    if series_only:
+        return Ht, U, Ui
 
     def full(S, order):
         rows = []
